@@ -1,8 +1,10 @@
 """C02 — percent fed is the true optimum of the allocation problem."""
 import collections
+import copy
+
+import numpy as np
 
 from props import pipeline
-import copy
 
 from vlib import pulp_highs, reflp, workload
 
@@ -85,6 +87,21 @@ def monitor(tr, case):
             mech = "reported_optimum_above_reference" if gap > 0 else "reported_optimum_below_reference"
             viol.append({"mech": mech, "msg": "%s round %d (%s): CBC reports %.8g, independent optimum %.8g (rel gap %.3e; code-built model under HiGHS %r)" % (
                 case["iso"], k + 1, lp.kind, z, zr, gap, zm), "data": data})
+        if lp.kind == "to_animals" and z is not None:
+            # what the round hands on is the allocation left after its secondary (smoothing) solves, not the optimum of the first
+            # solve: its weighted total of feed and biofuel must still be that optimum (the code itself allows 0.005 % slack)
+            tot = {}
+            for tag in ("feed", "biofuel"):
+                t_ = np.zeros(lp.N)
+                for name, kk in (("stored_food_", 1), ("crops_food_", 1), ("seaweed_", lp.consts["SEAWEED_KCALS"]), ("cellulosic_sugar_", 1), ("methane_scp_", 1)):
+                    if lp.has(name + tag):
+                        t_ += np.nan_to_num(lp.val(name + tag)) * kk
+                tot[tag] = float(t_.sum())
+            handed = 2.0 / 3.0 * tot["feed"] + tot["biofuel"] / 3.0
+            rec["handed_on_weighted_total"] = handed
+            if handed < z * (1 - 2e-4) - 1e-6:
+                viol.append({"mech": "feed_round_allocation_below_its_optimum", "msg": "%s round %d (to_animals): the optimum is a weighted feed+biofuel total of %.8g but the allocation handed on is worth %.8g (%.2f %%)" % (
+                    case["iso"], k + 1, z, handed, 100.0 * handed / z if z else 0.0), "data": dict(data, handed=handed, optimum=z)})
         lps.append(rec)
     return viol, {"audited": sum(1 for x in lps if "gap_rel" in x), "lps": lps}
 
